@@ -150,3 +150,13 @@ Definition vec_reader (bin : bool) (attr : string) (ms : list string) (ps : vpro
                          (all_some (map (member_off bin ps t) ms))
   | None => None
   end.
+
+(* ---------- unclaimed properties ---------- *)
+(* the scalar reader of property n: attribute named n, one offset *)
+Definition scalar_reader (bin : bool) (all : vprops) (n : string) : option built :=
+  option_map (fun '(off, t) => {| b_attr := n; b_names := [n]; b_offs := [off]; b_ty := t; b_v1 := true |})
+             (offsets bin all n).
+(* one scalar reader per property of todo that none of the readers bs claims, in header order *)
+Definition unclaimed_readers (bin : bool) (all : vprops) (bs : list built) (todo : vprops) : list built :=
+  flat_map (fun p => if existsb (fun b => claims b (snd p)) bs then []
+                     else match scalar_reader bin all (snd p) with Some x => [x] | None => [] end) todo.
